@@ -346,9 +346,10 @@ fn extract_bc_condition(
         collect_predicates_for_range(c, a_cols, &mut preds);
     }
     if let Some(c) = inner {
-        if let Some(s) = shift_columns(c, -(a_cols as i32)) {
-            preds.push(s);
-        }
+        // conjunct by conjunct: the conjuncts of the inner condition that do not mention A move to B⋈C,
+        // the others stay with A (extract_a_condition); shifting the condition as a whole dropped the
+        // B-only conjuncts whenever another conjunct mentioned A
+        collect_predicates_for_range(c, a_cols, &mut preds);
     }
     combine_predicates(preds)
 }
